@@ -227,7 +227,7 @@ fn build_inner<S: StorageData>(db: &mut DbImpl<S>, spec: &GraphSpec) -> Result<R
         g.slots.push(id);
     }
     let mut nth = 0u8;
-    for op in &spec.ops {
+    for (nth_op, op) in spec.ops.iter().enumerate() {
         match *op {
             Op::Edge(a, b) => {
                 let (from, to) = (g.slots[a as usize], g.slots[b as usize]);
@@ -275,6 +275,7 @@ fn build_inner<S: StorageData>(db: &mut DbImpl<S>, spec: &GraphSpec) -> Result<R
                 g.slots[s as usize] = id;
             }
         }
+        check_links(db, &g).map_err(|e| format!("{LINKS_PREFIX} after {} (operation {}): {e}", op.text(), nth_op + 1))?;
     }
     for (s, alias) in &spec.aliases {
         let id = g.slots[*s as usize];
@@ -293,6 +294,38 @@ fn build_inner<S: StorageData>(db: &mut DbImpl<S>, spec: &GraphSpec) -> Result<R
         }
     }
     Ok(g)
+}
+
+pub const LINKS_PREFIX: &str = "graph links inconsistent";
+
+/// After every operation of a history: what the database reports as the ends
+/// of every edge and as the FIRST outgoing / incoming edge of every node
+/// (`DbElement::from` / `to`, public and documented) must fit the reference
+/// graph: an edge's ends are its nodes; a node's first edge is 0 exactly when
+/// it has no edge in that direction and otherwise one of ITS live edges. A
+/// database that fails this is not operated further (removals and searches
+/// walk these links and may not terminate on a corrupt list).
+fn check_links<S: StorageData>(db: &DbImpl<S>, g: &RefGraph) -> Result<(), String> {
+    let r = db.exec(QueryBuilder::search().elements().query()).map_err(|e| format!("elements search: {}", e.description))?;
+    for id in g.elements() {
+        let Some(e) = r.elements.iter().find(|e| e.id.0 == id) else {
+            return Err(format!("element {id} is not listed by the elements search"));
+        };
+        if id < 0 {
+            let edge = g.edge(id).unwrap();
+            if (e.from.0, e.to.0) != (edge.from, edge.to) {
+                return Err(format!("edge {id} is reported as {} -> {}, it was inserted as {} -> {}", e.from.0, e.to.0, edge.from, edge.to));
+            }
+        } else {
+            for (dir, head, mine) in [("outgoing", e.from.0, g.out_edges(id)), ("incoming", e.to.0, g.in_edges(id))] {
+                let ok = if mine.is_empty() { head == 0 } else { mine.iter().any(|x| x.id == head) };
+                if !ok {
+                    return Err(format!("node {id}: first {dir} edge is reported as {head}, its {dir} edges are {:?}", mine.iter().map(|x| x.id).collect::<Vec<_>>()));
+                }
+            }
+        }
+    }
+    Ok(())
 }
 
 /// Replays the history on `db`. `Err` = the database could not be brought
